@@ -867,6 +867,19 @@ var c02Mutants = []Mutant{
 	{ID: "C02-Q1-qrc-set-asked-after-append", File: "core/qbft/qbft.go", Expect: "Q1|getJustifiedQrc",
 		Old: "\t\t\tif !uniq(rc) {\n\t\t\t\tcontinue\n\t\t\t}",
 		New: "\t\t\tif rc.PreparedRound() == pr {\n\t\t\t\tqrc = append(qrc, rc)\n\t\t\t}\n\n\t\t\tif !uniq(rc) {\n\t\t\t\tcontinue\n\t\t\t}"},
+	// round 4: a ROUND-CHANGE on some path drops the prepared certificate although it is held (seed C01-r4A class)
+	{ID: "C02-Q5-roundchange-stale-cert-dropped", File: "core/qbft/qbft.go", Expect: "Q5|carries prepared",
+		Old: "\tbroadcastRoundChange := func() error {\n\t\treturn t.Broadcast(ctx, MsgRoundChange, instance, process, round,\n\t\t\tzeroVal[V](), preparedRound, preparedValue, preparedJustification)",
+		New: "\tbroadcastRoundChange := func() error {\n\t\tpr, pv, pj := preparedRound, preparedValue, preparedJustification\n\t\tif pr < round-1 {\n\t\t\tpr, pv, pj = 0, zeroVal[V](), nil\n\t\t}\n\n\t\treturn t.Broadcast(ctx, MsgRoundChange, instance, process, round,\n\t\t\tzeroVal[V](), pr, pv, pj)"},
+	{ID: "C02-Q5-roundchange-justification-once", File: "core/qbft/qbft.go", Expect: "Q5|carries preparedJustification",
+		Old: "\tbroadcastRoundChange := func() error {\n\t\treturn t.Broadcast(ctx, MsgRoundChange, instance, process, round,\n\t\t\tzeroVal[V](), preparedRound, preparedValue, preparedJustification)",
+		New: "\tbroadcastRoundChange := func() error {\n\t\tvar pj []Msg[I, V, C]\n\t\tif round == preparedRound+1 {\n\t\t\tpj = preparedJustification\n\t\t}\n\n\t\treturn t.Broadcast(ctx, MsgRoundChange, instance, process, round,\n\t\t\tzeroVal[V](), preparedRound, preparedValue, pj)"},
+	{ID: "C02-Q5-roundchange-cert-cleared-after-send", File: "core/qbft/qbft.go", Expect: "Q5|written only",
+		Old: "\tbroadcastRoundChange := func() error {\n\t\treturn t.Broadcast(ctx, MsgRoundChange, instance, process, round,\n\t\t\tzeroVal[V](), preparedRound, preparedValue, preparedJustification)",
+		New: "\tbroadcastRoundChange := func() error {\n\t\tdefer func() { preparedRound, preparedValue, preparedJustification = 0, zeroVal[V](), nil }()\n\n\t\treturn t.Broadcast(ctx, MsgRoundChange, instance, process, round,\n\t\t\tzeroVal[V](), preparedRound, preparedValue, preparedJustification)"},
+	{ID: "C02-Q5-fplus1-roundchange-null-when-behind", File: "core/qbft/qbft.go", Expect: "Q5|carries",
+		Old: "\t\t\t\terr = broadcastRoundChange()\n\n\t\t\tcase UponQuorumRoundChanges: // Algorithm 3:11",
+		New: "\t\t\t\tif preparedRound+1 < round {\n\t\t\t\t\terr = t.Broadcast(ctx, MsgRoundChange, instance, process, round, zeroVal[V](), 0, zeroVal[V](), nil)\n\t\t\t\t} else {\n\t\t\t\t\terr = broadcastRoundChange()\n\t\t\t\t}\n\n\t\t\tcase UponQuorumRoundChanges: // Algorithm 3:11"},
 	// Q5
 	{ID: "C02-Q5-roundchange-zero-pv", File: "core/qbft/qbft.go", Expect: "Q5|carries preparedValue",
 		Old: "zeroVal[V](), preparedRound, preparedValue, preparedJustification)",
